@@ -171,6 +171,32 @@ let many_verdict ~wellformed paths_arg h impl =
     end end
   else "bad:unparsable result"
 
+(* ---------- C14 / C01 on documents that repeat member names: every filled slot of get_many is the span of exactly one
+   well-formed value inside the input (which occurrence of a repeated name is chosen is not prescribed for get_many) ---------- *)
+let manyfrag_verdict h impl =
+  let bytes = bytes_of_hex h in
+  let n = Stdlib.List.length bytes in
+  if String.length impl >= 5 && String.sub impl 0 5 = "panic" then "panic"
+  else if impl = "err" then "ok"
+  else if String.length impl >= 3 && String.sub impl 0 3 = "ok:" then begin
+    let slots = split_on ';' (String.sub impl 3 (String.length impl - 3)) in
+    let bad = ref "" in
+    Stdlib.List.iteri (fun i slot ->
+        if slot <> "none" then
+          match String.split_on_char ',' slot with
+          | [a; b] ->
+            let a = ios a and b = ios b in
+            if not (0 <= a && a < b && b <= n) then bad := Printf.sprintf "bad:slot %d span %s outside the input" i slot
+            else begin
+              let sub = sub_bytes bytes a b in
+              match (if Ref.utf8_valid sub then Ref.ref_text false sub else None) with
+              | Some ((_, a'), b') when int_of_nat a' = 0 && int_of_nat b' = b - a -> ()
+              | _ -> bad := Printf.sprintf "bad:slot %d (%s) is not exactly one well-formed value" i slot
+            end
+          | _ -> bad := Printf.sprintf "bad:slot %d unparsable (%s)" i slot) slots;
+    if !bad = "" then "ok" else !bad end
+  else "bad:unparsable result"
+
 (* ---------- C11: the search model itself (Model/ManySeen.rec2 over the tree ManyBuild.build makes of the paths), run
    on the reference parse of the document and compared slot by slot with what get_many returned. Paths of member
    names only (the model has objects; everything else is a leaf). ---------- *)
@@ -253,6 +279,7 @@ let () =
   reg_memo 1 "iterarr_text" (function h :: _ -> let b = bytes_of_hex h in items_string ~text:(Some b) ~with_key:false (Ref.ref_array_iter b) | _ -> raise (Bad_op "iterarr_text"));
   reg_memo 1 "iterobj_text" (function h :: _ -> let b = bytes_of_hex h in items_string ~text:(Some b) ~with_key:true (Ref.ref_object_iter b) | _ -> raise (Bad_op "iterobj_text"));
   reg "valeq" (function h1 :: h2 :: _ -> valeq_verdict h1 h2 | _ -> raise (Bad_op "valeq"));
+  reg "manyfrag" (function _ :: h :: impl :: _ -> manyfrag_verdict h impl | _ -> raise (Bad_op "manyfrag"));
   reg "manyrec" (function p :: h :: impl :: _ -> manyrec_verdict p h impl | _ -> raise (Bad_op "manyrec"));
   reg "manyok" (function p :: h :: impl :: _ -> many_verdict ~wellformed:true p h impl | _ -> raise (Bad_op "manyok"));
   reg "manysound" (function p :: h :: impl :: _ -> many_verdict ~wellformed:false p h impl | _ -> raise (Bad_op "manysound"));
